@@ -426,7 +426,32 @@ def run(ctx):
     r7 = borrow(c04.r1_semantics(ctx), "C06.R7", "a literal count passed to a range reference selects the branch the range itself renders",
                 "`$t(range, {\"count\": 1.0})` is resolved at parse time by Range::do_match; if its bound semantics differ from the generated "
                 "run-time patterns the reference shows another branch than the key it refers to", only=r"do_match", floor=3)
-    return [r1_traversals(ctx), r2_naming(ctx), r3_locale_consistency(ctx, prog), r4_order(ctx, prog), r5_inherits(ctx, prog), r6_lookup(ctx, prog), r7]
+    r0, ok, why = r0_substitution(ctx)
+    import os
+    rest = [r2_naming(ctx), r3_locale_consistency(ctx, prog), r4_order(ctx, prog), r5_inherits(ctx, prog), r6_lookup(ctx, prog), r7]
+    if ok and not os.environ.get("VERIF_FORCE_FALLBACK"):
+        return [r0] + rest
+    if not ok and not r0.violations:
+        r0.instances[:] = []
+        r0.inst("evaluation not available", "fallback to the structural rule R1: %s" % str(why)[:200])
+        r0.floor = 1
+    return [r0, r1_traversals(ctx)] + rest
+
+
+def r0_substitution(ctx):
+    """abstract evaluation of populate / resolve_foreign_key_inner / resolve_foreign_key (rules/fkeval.py)"""
+    from rules import fkeval, absint
+    r = Rule("C06.R0", "references are pure substitution: populate, the resolution step and the traversal evaluated on every kind of value",
+             "`$t(path, {args})` renders exactly what the referenced key renders, with each supplied argument replacing the variable of that "
+             "name wherever that variable comes from (a literal count fixes the branch, a `{{ var }}` count renames the count variable) ... "
+             "references that cannot be resolved, point at a subkey group, or are cyclic are rejected", floor=3)
+    try:
+        a = fkeval.check_populate(ctx, r)
+        b = fkeval.check_inner(ctx, r)
+        c = fkeval.check_traversal(ctx, r)
+    except absint.Unknown as u:
+        return r, False, str(u)
+    return r, a and b and c, "anchor missing"
 
 
 MANIFEST_ENTRY = {
